@@ -45,6 +45,14 @@ def built():
     return _BUILT
 
 
+def ff_plain(p):
+    """what ff_report returns, without logging"""
+    import gram
+    from core import sx
+    _, b = built()
+    return float(len(sx(gram.canon(p, b))))
+
+
 def ff_report(p):
     """Fitness function that reports what it was handed: appends the canonical form of its argument
     to the file named by VERIF_FF_LOG (O_APPEND: survives ParallelEvaluator's process boundary)."""
